@@ -13,8 +13,8 @@ from .. import strategies as S
 
 PROPERTY = "C03"
 LEVEL = "exploration"
-K_TOL = 1024.0       # |dt| > P
-K_SMALL = 128.0      # |dt| <= P  (measured: error/(delta_cond+eps|x|) <= 14 there, <= 231 up to 1e3 P)
+K_TOL = 1024.0       # |dt| > P   (measured max over 173k thorough cases: 74 elliptic <= 100 P, 332 hyperbolic)
+K_SMALL = 128.0      # |dt| <= P  (measured max over 173k thorough cases: 25)
 
 
 def k_of(dtP):
@@ -611,6 +611,9 @@ def rb_dbits(x):
 
 def prepare(tier):
     from ..oracles import c03_kepler_mp as KM
+    # thorough jobs legitimately run for more than the runner's 400 s "dump a traceback" watchdog; that dump walks
+    # the interpreter's frames from another thread and has crashed long jobs (SIGSEGV in libpython): push it out
+    os.environ.setdefault("VERIF_DUMP_AFTER", "100000")
     w = KM.selftest()
     if not w < 1e-50:
         raise RuntimeError("C03 oracle self-test failed: %g" % w)
